@@ -4,7 +4,8 @@
    documented formula, f0 at Q = 0 is sum a_i + c and is continuous there.
    Uses the standard library's classical reals. *)
 From Coq Require Import ZArith QArith Qreals List Lia Reals Lra Psatz.
-From PT Require Import Ancillary IExpr XsfReal.
+From Interval Require Import Specific_stdz Specific_ops Float_full Interval Xreal Basic.
+From PT Require Import Dec Ancillary IExpr Xsf XsfReal.
 Import ListNotations.
 Open Scope R_scope.
 
@@ -292,4 +293,24 @@ Proof.
   - apply C. split.
     + split; [exact I|]. intro E. apply Z. symmetry. exact E.
     + simpl. unfold R_dist. rewrite Rminus_0_r. exact Hq.
+Qed.
+
+(* ------------------------------------------------------------------ the double nearest pi *)
+(* the range test of f0 divides by 4*numpy.pi: PI64 is pi to within half an ulp (2^-52 for [2,4)) *)
+Definition pi_i := Eval vm_compute in evalI PREC no_env_I EPi.
+Lemma pi_i_eq : evalI PREC no_env_I EPi = pi_i.
+Proof. vm_compute. reflexivity. Qed.
+
+Theorem PI64_is_pi_rounded : Rabs (Q2R PI64 - PI) <= / 2 ^ 52.
+Proof.
+  pose proof (evalI_sound PREC no_env_I no_env_R EPi no_env_ok) as H. rewrite pi_i_eq in H. unfold pi_i in H.
+  simpl in H.
+  assert (Q2R PI64 = 884279719003555 / 281474976710656) as E.
+  { unfold Q2R. replace (Qnum PI64) with 884279719003555%Z by (vm_compute; reflexivity).
+    replace (QDen PI64) with 281474976710656%Z by (vm_compute; reflexivity). reflexivity. }
+  rewrite E. clear E.
+  replace (Z.pos (StdZRadix2.MtoP 949488118409084645196998)) with 949488118409084645196998%Z in H by reflexivity.
+  replace (Z.pos (StdZRadix2.MtoP 949488118409084645196999)) with 949488118409084645196999%Z in H by reflexivity.
+  replace (Z.pow_pos 2 78) with 302231454903657293676544%Z in H by (vm_compute; reflexivity).
+  apply Rabs_le. lra.
 Qed.
